@@ -4,6 +4,7 @@ import (
 	"encoding/hex"
 	"encoding/xml"
 	"io"
+	"sort"
 	"strings"
 )
 
@@ -37,6 +38,27 @@ func EncTok(t xml.Token) string {
 		return EncTok(*t)
 	}
 	return "?"
+}
+
+// SortedAttrs returns a copy of the token list in which the attributes of every
+// start element are sorted by (space, local, value): attribute order carries no
+// meaning and the model drivers print theirs sorted the same way.
+func SortedAttrs(ts []xml.Token) []xml.Token {
+	out := make([]xml.Token, len(ts))
+	for i, t := range ts {
+		if s, ok := t.(xml.StartElement); ok {
+			as := append([]xml.Attr(nil), s.Attr...)
+			sort.SliceStable(as, func(a, b int) bool {
+				ka := as[a].Name.Space + "\x00" + as[a].Name.Local + "\x00" + as[a].Value
+				kb := as[b].Name.Space + "\x00" + as[b].Name.Local + "\x00" + as[b].Value
+				return ka < kb
+			})
+			s.Attr = as
+			t = s
+		}
+		out[i] = t
+	}
+	return out
 }
 
 // EncToks encodes a token list ("-" when empty).
